@@ -138,6 +138,7 @@ fn gen_shared_root(rng: &mut Rng, cfg: &GenCfg, ids: &mut Ids) -> TreeSpec {
       }
       TreeSpec::Replace {
         inner: Box::new(inner),
+        observe_at: gen::pre_history(rng, calls.len()),
         calls,
       }
     }
@@ -302,6 +303,7 @@ fn gen_directed(rng: &mut Rng, cfg: &GenCfg, ids: &mut Ids) -> Scenario {
       }
       let r = TreeSpec::Replace {
         inner: Box::new(inner),
+        observe_at: gen::pre_history(rng, calls.len()),
         calls,
       };
       let observers = [
@@ -347,6 +349,7 @@ fn gen_directed(rng: &mut Rng, cfg: &GenCfg, ids: &mut Ids) -> Scenario {
         inner: Box::new(TreeSpec::Replace {
           inner: Box::new(inner),
           calls,
+          observe_at: None,
         }),
         cache_id: ids.cache(),
       };
@@ -446,6 +449,7 @@ fn gen_directed(rng: &mut Rng, cfg: &GenCfg, ids: &mut Ids) -> Scenario {
       let calls = gen_calls(rng, &text, 3, cfg.ascii);
       let r = TreeSpec::Replace {
         inner: Box::new(inner),
+        observe_at: gen::pre_history(rng, calls.len()),
         calls,
       };
       let shared = match rng.below(3) {
@@ -506,6 +510,7 @@ fn gen_directed(rng: &mut Rng, cfg: &GenCfg, ids: &mut Ids) -> Scenario {
       }
       let r = TreeSpec::Replace {
         inner: Box::new(inner),
+        observe_at: gen::pre_history(rng, calls.len()),
         calls,
       };
       Scenario {
